@@ -484,3 +484,110 @@ Definition unsafe_component (r : wreq) : Z :=
   else if negb (forallb (fun kv => is_token (fst kv)) (forwarded_fields (w_fields r))) then 4
   else 0.
 Definition safe_request (r : wreq) : bool := unsafe_component r =? 0.
+
+(* ---------- transport level: several requests through one bfe_http.Transport (keep-alive) to one backend ----------
+   bfe_http/transport.go: getConn / getIdleConn / putIdleConn, persistConn.roundTrip, readLoop, writeLoop
+   (Request.write into the connection's 4096-byte bufio writer; the header block is flushed at once, the
+   body only when the write succeeds; a failed write marks the connection broken so that it is never
+   reused).  One step = one request: declared Content-Length, the body bytes the body reader delivers
+   (then EOF or an error), whether the backend answers as soon as it has the header block (early) or after
+   the complete body, and whether its response says "Connection: close". *)
+Record tstep := { t_method : bytes; t_path : bytes; t_declared : Z; t_delivered : bytes;
+                  t_early : bool; t_respclose : bool; t_bodyerr : bool }.
+Definition s_backend : bytes := [98;97;99;107;101;110;100].
+Definition step_req (st : tstep) (data : bytes) : wreq :=
+  {| w_method := t_method st; w_ruri := t_path st; w_host := s_backend; w_fields := [];
+     w_body := if t_declared st =? 0 then WNone else WLen (t_declared st) data |}.
+(* does the write of the request succeed: the body reader yields exactly the declared number of bytes, then EOF *)
+Definition step_ok (st : tstep) : bool := (blen (t_delivered st) =? t_declared st) && negb (t_bodyerr st).
+(* bytes that reach the backend connection for this step *)
+Definition step_bytes (st : tstep) : bytes :=
+  if step_ok st && negb (t_early st && t_respclose st)
+  then write_request (step_req st (t_delivered st))
+  else write_request (step_req st []).            (* header block only: the buffered body is never flushed *)
+(* may the connection be reused afterwards *)
+Definition step_keeps (st : tstep) : bool := step_ok st && negb (t_respclose st).
+(* streams received per backend connection, in dial order; cur = is the last connection idle and usable *)
+Fixpoint run_transport (steps : list tstep) (conns : list bytes) (cur : bool) : list bytes :=
+  match steps with
+  | [] => conns
+  | st :: r =>
+    let conns' :=
+      if cur then match rev conns with
+                  | last :: before => rev before ++ [last ++ step_bytes st]
+                  | [] => [step_bytes st]
+                  end
+      else conns ++ [step_bytes st] in
+    run_transport r conns' (step_keeps st)
+  end.
+
+(* strict reference parser, stream form: Complete (rest) | Incomplete (more bytes needed) | Bad *)
+Inductive sres := SComplete (rest : bytes) | SIncomplete | SBad.
+(* 0 found, 1 incomplete, 2 bad *)
+Fixpoint split_crlf3 (s : bytes) : Z * bytes * bytes :=
+  match s with
+  | [] => (1, [], [])
+  | x :: r =>
+    if x =? 13 then
+      match r with
+      | y :: r' => if y =? 10 then (0, [], r') else (2, [], [])
+      | [] => (1, [], [])
+      end
+    else if x =? 10 then (2, [], [])
+    else let '(c, l, t) := split_crlf3 r in (c, x :: l, t)
+  end.
+Fixpoint strict_fields3 (fuel : nat) (s : bytes) (acc : fields) {struct fuel} : Z * fields * bytes :=
+  match fuel with
+  | O => (2, [], [])
+  | S f =>
+    let '(c, l, r) := split_crlf3 s in
+    if c =? 0 then
+      match l with
+      | [] => (0, rev acc, r)
+      | _ => match strict_field l with Some kv => strict_fields3 f r (kv :: acc) | None => (2, [], []) end
+      end
+    else (c, [], [])
+  end.
+Definition strict_next (s : bytes) : sres :=
+  let '(c, rl, r) := split_crlf3 s in
+  if c =? 1 then SIncomplete else if c =? 2 then SBad
+  else match strict_reqline rl with
+  | None => SBad
+  | Some _ =>
+    let '(c2, fs, rest) := strict_fields3 (S (length r)) r [] in
+    if c2 =? 1 then SIncomplete else if c2 =? 2 then SBad
+    else
+      let cfs := canon_fields fs in
+      match get_all s_host cfs with
+      | [_] =>
+        match get_all s_te cfs, get_all s_cl cfs with
+        | [te], [] =>
+          if bytes_eqb te s_chunked then
+            match strict_chunks (S (length rest)) rest [] with Some (_, rest') => SComplete rest' | None => SBad end
+          else SBad
+        | [], [cl] =>
+          match parse_dec cl with
+          | Some n => if blen rest <? n then SIncomplete else SComplete (skipn (Z.to_nat n) rest)
+          | None => SBad
+          end
+        | [], [] => SComplete rest
+        | _, _ => SBad
+        end
+      | _ => SBad
+      end
+  end.
+(* a connection's byte stream is a sequence of complete well-formed requests, possibly followed by one
+   request that is cut short (nothing can follow a cut request) *)
+Fixpoint seq_ok (fuel : nat) (s : bytes) {struct fuel} : bool :=
+  match fuel with
+  | O => false
+  | S f =>
+    match s with
+    | [] => true
+    | _ => match strict_next s with
+           | SComplete rest => if (length rest <? length s)%nat then seq_ok f rest else false
+           | SIncomplete => true
+           | SBad => false
+           end
+    end
+  end.
